@@ -299,11 +299,18 @@ def eval_table(P):
                     else:
                         okq = r2[0] == 'term' and r2[1] == ('throw', 'KeyError')
                     if not okq:
-                        bad[look] = bad[look] or '%s, then %s(key %d, %s): %s' % (lab, look, q, 'bound' if q in model else 'not bound',
-                                                                                 'returns %s' % (r2[1],) if r2[0] == 'ret' else ('raises %s' % r2[1][1] if isinstance(r2[1], tuple) else r2[1]))
+                        msg_ = '%s, then %s(key %d, %s): %s' % (lab, look, q, 'bound' if q in model else 'not bound',
+                                                               'returns %s' % (r2[1],) if r2[0] == 'ret' else ('raises %s' % r2[1][1] if isinstance(r2[1], tuple) else r2[1]))
+                        bad[look] = bad[look] or msg_
+                        if first_lookup_ok.get(look):
+                            # the lookup worked on the states before: the operation left the table in a state it cannot be searched in
+                            bad[op] = bad[op] or msg_
+                    else:
+                        first_lookup_ok[look] = True
             return True
         hist = ''
         ok = True
+        first_lookup_ok = {}
         try:
             for k in order:
                 ok = ok and step('set', k, k)
